@@ -568,3 +568,80 @@ func vK04aKeys() {
 	}
 	vReach("end")
 }
+
+// vK04cLocalPattern: `let [x = D, y] = [I, ...]` and friends. A declaration is
+// removable only if evaluating the initialiser, iterating it and evaluating
+// the defaults that can run has no effect. A default runs exactly when the
+// element it receives is undefined: missing from the array, a hole, the value
+// undefined, or any expression whose value is not known.
+// hLeafK04c: a small leaf set for K04c: pure identifier, undefined, number, a
+// call with an effect, a property read that may hit a getter
+func hLeafK04c() Expr {
+	switch vChoose(5) {
+	case 0:
+		return hID(0)
+	case 1:
+		return Expr{Data: EUndefinedShared}
+	case 2:
+		return Expr{Data: &ENumber{Value: 1}}
+	case 3:
+		return Expr{Data: &ECall{Target: hID(0)}}
+	}
+	return Expr{Data: &EDot{Target: hID(0), Name: "p"}}
+}
+
+func vK04cLocalPattern() {
+	ctx := MakeHelperContext(hIsUnbound)
+	nItems := hLen(1, 2)
+	nElems := hLen(0, 2)
+	var elems []Expr
+	elemMayBeUndefined := make([]bool, 2)
+	elemMayBeUndefined[0], elemMayBeUndefined[1] = true, true
+	initEffect := false
+	for i := 0; i < nElems; i++ {
+		var e Expr
+		switch vChoose(3) {
+		case 0:
+			e = Expr{Data: &EMissing{}} // a hole
+		case 1:
+			e = hLeafK04c()
+			switch e.Data.(type) {
+			case *ENumber, *EString, *ENull, *EBoolean, *EBigInt, *ERegExp:
+				elemMayBeUndefined[i] = false
+			}
+			initEffect = initEffect || hMayEffect(e, false)
+		case 2:
+			e = Expr{Data: &ENumber{Value: 1}}
+			elemMayBeUndefined[i] = false
+		}
+		elems = append(elems, e)
+	}
+	effect := initEffect
+	var items []ArrayBinding
+	for i := 0; i < nItems; i++ {
+		it := ArrayBinding{Binding: Binding{Data: &BIdentifier{Ref: ast.Ref{InnerIndex: uint32(10 + i)}}}}
+		if vBool() {
+			d := hLeafK04c()
+			it.DefaultValueOrNil = d
+			if hMayEffect(d, false) && elemMayBeUndefined[i] {
+				effect = true
+			}
+		}
+		items = append(items, it)
+	}
+	var init Expr
+	arrayLiteral := vBool()
+	if arrayLiteral {
+		init = Expr{Data: &EArray{Items: elems}}
+	} else {
+		init = hLeafK04c() // anything else is iterated with an unknown iterator
+		effect = true
+	}
+	kind := []LocalKind{LocalVar, LocalLet, LocalConst}[vChoose(3)]
+	stmt := Stmt{Data: &SLocal{Kind: kind, Decls: []Decl{{Binding: Binding{Data: &BArray{Items: items}}, ValueOrNil: init}}}}
+	if ctx.StmtsCanBeRemovedIfUnused([]Stmt{stmt}, 0) {
+		vAssert(!effect, "a destructuring declaration reported removable evaluates no initialiser element, iterator or default value with an effect")
+		vReach("removable")
+	}
+	vReach("end")
+}
